@@ -174,7 +174,7 @@ package keeper
 //@   ensures old(BridgeConfigs)[b] != None && (req.Authority == ms.authority || req.Authority == cfg.Proposer) && addrOK(1, req.Authority) && addrOK(1, req.NewProposer) && b != 0 && !$hookFailed
 //@        && addrOK(1, cfg.Challenger) && addrOK(1, cfg.Proposer) && cfg.BatchInfo.ChainType != 0 && len(cfg.BatchInfo.Submitter) > 0 && cfg.FinalizationPeriod > 0 && cfg.SubmissionInterval != 0 && cfg.SubmissionStartHeight != 0 ==> err == nil   // C12: entitled_signer_is_never_rejected (INV_CFG: stored configs passed Validate)
 //@   ensures err == nil ==> val(BridgeConfigs[b]).Challenger == cfg.Challenger && val(BridgeConfigs[b]).BatchInfo == cfg.BatchInfo && val(BridgeConfigs[b]).SubmissionInterval == cfg.SubmissionInterval && val(BridgeConfigs[b]).FinalizationPeriod == cfg.FinalizationPeriod && val(BridgeConfigs[b]).SubmissionStartHeight == cfg.SubmissionStartHeight && val(BridgeConfigs[b]).OracleEnabled == cfg.OracleEnabled && val(BridgeConfigs[b]).Metadata == cfg.Metadata   // C12,C19,C05: only_the_proposer_field_changes
-//@   assigns BridgeConfigs[b], perm.admin, events   // C11,C10,C01: a_config_update_touches_neither_outputs_nor_counters_nor_escrow
+//@   assigns BridgeConfigs[b], perm.admin, events
 
 //@ func (MsgServer) UpdateChallenger
 //@   let b := req.BridgeId
@@ -187,7 +187,7 @@ package keeper
 //@   ensures old(BridgeConfigs)[b] != None && (req.Authority == ms.authority || req.Authority == cfg.Challenger) && addrOK(1, req.Authority) && addrOK(1, req.Challenger) && b != 0 && !$hookFailed
 //@        && addrOK(1, cfg.Challenger) && addrOK(1, cfg.Proposer) && cfg.BatchInfo.ChainType != 0 && len(cfg.BatchInfo.Submitter) > 0 && cfg.FinalizationPeriod > 0 && cfg.SubmissionInterval != 0 && cfg.SubmissionStartHeight != 0 ==> err == nil   // C12: entitled_signer_is_never_rejected (INV_CFG: stored configs passed Validate)
 //@   ensures err == nil ==> val(BridgeConfigs[b]).Proposer == cfg.Proposer && val(BridgeConfigs[b]).BatchInfo == cfg.BatchInfo && val(BridgeConfigs[b]).SubmissionInterval == cfg.SubmissionInterval && val(BridgeConfigs[b]).FinalizationPeriod == cfg.FinalizationPeriod && val(BridgeConfigs[b]).SubmissionStartHeight == cfg.SubmissionStartHeight && val(BridgeConfigs[b]).OracleEnabled == cfg.OracleEnabled && val(BridgeConfigs[b]).Metadata == cfg.Metadata   // C12,C19,C05: only_the_challenger_field_changes
-//@   assigns BridgeConfigs[b], perm.admin, events   // C11,C10,C01: a_config_update_touches_neither_outputs_nor_counters_nor_escrow
+//@   assigns BridgeConfigs[b], perm.admin, events
 
 //@ func (MsgServer) UpdateBatchInfo
 //@   let b := req.BridgeId
@@ -197,7 +197,7 @@ package keeper
 //@   ensures old(BridgeConfigs)[b] != None && (req.Authority == ms.authority || req.Authority == cfg.Proposer) && addrOK(1, req.Authority) && b != 0 && req.NewBatchInfo.ChainType != 0 && len(req.NewBatchInfo.Submitter) > 0 && !$hookFailed
 //@        && addrOK(1, cfg.Challenger) && addrOK(1, cfg.Proposer) && cfg.BatchInfo.ChainType != 0 && len(cfg.BatchInfo.Submitter) > 0 && cfg.FinalizationPeriod > 0 && cfg.SubmissionInterval != 0 && cfg.SubmissionStartHeight != 0 ==> err == nil   // C12: entitled_signer_is_never_rejected (INV_CFG)
 //@   ensures err == nil ==> val(BridgeConfigs[b]).Challenger == cfg.Challenger && val(BridgeConfigs[b]).Proposer == cfg.Proposer && val(BridgeConfigs[b]).SubmissionInterval == cfg.SubmissionInterval && val(BridgeConfigs[b]).FinalizationPeriod == cfg.FinalizationPeriod && val(BridgeConfigs[b]).SubmissionStartHeight == cfg.SubmissionStartHeight && val(BridgeConfigs[b]).OracleEnabled == cfg.OracleEnabled && val(BridgeConfigs[b]).Metadata == cfg.Metadata   // C12,C19,C05: only_the_batch_info_changes
-//@   assigns BridgeConfigs[b], BatchInfos[(b, *)], perm.admin, events   // C11,C10,C01: a_config_update_touches_neither_outputs_nor_counters_nor_escrow
+//@   assigns BridgeConfigs[b], BatchInfos[(b, *)], perm.admin, events
 
 //@ func (MsgServer) UpdateOracleConfig
 //@   let b := req.BridgeId
@@ -208,7 +208,7 @@ package keeper
 //@   ensures old(BridgeConfigs)[b] != None && (req.Authority == ms.authority || req.Authority == cfg.Proposer) && addrOK(1, req.Authority) && b != 0
 //@        && addrOK(1, cfg.Challenger) && addrOK(1, cfg.Proposer) && cfg.BatchInfo.ChainType != 0 && len(cfg.BatchInfo.Submitter) > 0 && cfg.FinalizationPeriod > 0 && cfg.SubmissionInterval != 0 && cfg.SubmissionStartHeight != 0 ==> err == nil   // C12: entitled_signer_is_never_rejected (INV_CFG)
 //@   ensures err == nil ==> val(BridgeConfigs[b]).Challenger == cfg.Challenger && val(BridgeConfigs[b]).Proposer == cfg.Proposer && val(BridgeConfigs[b]).BatchInfo == cfg.BatchInfo && val(BridgeConfigs[b]).SubmissionInterval == cfg.SubmissionInterval && val(BridgeConfigs[b]).FinalizationPeriod == cfg.FinalizationPeriod && val(BridgeConfigs[b]).SubmissionStartHeight == cfg.SubmissionStartHeight && val(BridgeConfigs[b]).Metadata == cfg.Metadata   // C12,C19,C05: only_the_oracle_flag_changes
-//@   assigns BridgeConfigs[b], events   // C11,C10,C01: a_config_update_touches_neither_outputs_nor_counters_nor_escrow
+//@   assigns BridgeConfigs[b], events
 
 //@ func (MsgServer) UpdateMetadata
 //@   let b := req.BridgeId
@@ -220,7 +220,7 @@ package keeper
 //@   ensures old(BridgeConfigs)[b] != None && (req.Authority == ms.authority || req.Authority == cfg.Proposer) && addrOK(1, req.Authority) && b != 0 && len(req.Metadata) <= 5120 && !$hookFailed
 //@        && addrOK(1, cfg.Challenger) && addrOK(1, cfg.Proposer) && cfg.BatchInfo.ChainType != 0 && len(cfg.BatchInfo.Submitter) > 0 && cfg.FinalizationPeriod > 0 && cfg.SubmissionInterval != 0 && cfg.SubmissionStartHeight != 0 ==> err == nil   // C12: entitled_signer_is_never_rejected (INV_CFG)
 //@   ensures err == nil ==> val(BridgeConfigs[b]).Challenger == cfg.Challenger && val(BridgeConfigs[b]).Proposer == cfg.Proposer && val(BridgeConfigs[b]).BatchInfo == cfg.BatchInfo && val(BridgeConfigs[b]).SubmissionInterval == cfg.SubmissionInterval && val(BridgeConfigs[b]).FinalizationPeriod == cfg.FinalizationPeriod && val(BridgeConfigs[b]).SubmissionStartHeight == cfg.SubmissionStartHeight && val(BridgeConfigs[b]).OracleEnabled == cfg.OracleEnabled   // C12,C19,C05: only_the_metadata_changes
-//@   assigns BridgeConfigs[b], perm.admin, events   // C11,C10,C01: a_config_update_touches_neither_outputs_nor_counters_nor_escrow
+//@   assigns BridgeConfigs[b], perm.admin, events
 
 //@ func (MsgServer) UpdateParams
 //@   ensures err == nil ==> req.Authority == ms.authority                                         // C12: gov_only
